@@ -397,3 +397,56 @@ func isMutation(k string) bool {
 	}
 	return false
 }
+
+// emptyEverything empties every root (alternating PopIterate and one-by-one removal)
+// and checks that exactly one register per root remains (C09).
+func (e *Engine) emptyEverything() error {
+	e.curOp = nil
+	for i, r := range e.Roots {
+		if err := e.acquire(r); err != nil {
+			return err
+		}
+		kind := "pop"
+		if r.IsMap {
+			kind = "mpop"
+		}
+		if i%2 == 1 {
+			kind = "remN"
+			if r.IsMap {
+				kind = "mremN"
+			}
+		}
+		op := &Op{K: kind, N: r.Count() + 1, D: 2 + i%2}
+		e.curOp = op
+		var err error
+		if r.IsMap {
+			err = e.mapOp(r, op)
+		} else {
+			err = e.arrayOp(r, op)
+		}
+		if err != nil {
+			return err
+		}
+		if r.Count() != 0 {
+			return e.viol("harness: root not emptied")
+		}
+	}
+	e.curOp = nil
+	if err := e.checkStructure(); err != nil {
+		return err
+	}
+	if err := e.Commit(0); err != nil {
+		return err
+	}
+	nonTemp := 0
+	for _, r := range e.Roots {
+		if r.Addr != addrOf(0) {
+			nonTemp++
+		}
+	}
+	if len(e.L.Regs) != nonTemp {
+		return e.viol("after emptying every container %d registers remain for %d roots: %v", len(e.L.Regs), nonTemp, e.L.Keys())
+	}
+	e.Stats.label("emptied_all")
+	return nil
+}
